@@ -425,6 +425,8 @@ struct Tr<'a> {
     no_hoist: usize,
     last_borrow: Option<Borrow>,
     effect_seen: bool,
+    /// the variable holding the result of the effectful call of the current statement
+    last_effect_result: Option<String>,
     /// integer literals are blocks of this width (inside a bitwise operation on a block)
     bits_ctx: Option<u32>,
     /// the current function returns `&mut T` (see `Sig::ret_borrow`)
@@ -892,7 +894,9 @@ impl<'a> Tr<'a> {
             if self.loop_ctx.is_some() {
                 return self.unsupported(sp, "early exit to `None` inside a loop body:");
             }
-            if self.effect_seen {
+            // (allowed when what is tested is the result of the effectful call itself: `self.m.remove(k)?`)
+            let on_result = matches!((&p, &self.last_effect_result), (Pre::Bind { opt, .. }, Some(q)) if opt == q);
+            if self.effect_seen && !on_result {
                 return self.unsupported(sp, "early exit after an effect in the same statement:");
             }
             if !matches!(self.ret, Ty::Opt(_)) {
